@@ -14,6 +14,7 @@ Global level (`Pkg.lean`): all payments with forwarding-package references; the 
 -/
 import LndModel.C08.Invariant
 import LndModel.C08.Pkg
+import LndModel.C08.Mailbox
 
 set_option linter.unusedSectionVars false
 set_option linter.unusedVariables false
@@ -995,6 +996,91 @@ theorem monitor_sound_settle_init {o' : Obs P} {ws : List (WEv P)}
     (h : obsRun H hash ({} : Obs P) ws = .ok o') : FulfillJustified H hash [] ws :=
   monitor_sound_settle H hash ⟨by simp, by simp [Life.res?]⟩ h
 
+
+
+/-! ### the mailbox: a reset re-delivers every un-acked packet -/
+
+section Mailbox
+variable {α : Type}
+
+/-- with enough deliveries the courier hands out exactly the packets from the head pointers on:
+the settle/fail queue first, then the adds. -/
+theorem MBox.drain_eq (m : MBox α) (n : Nat)
+    (hn : (m.rep.length - m.repHead) + (m.add.length - m.addHead) ≤ n) :
+    m.drain n = m.rep.drop m.repHead ++ m.add.drop m.addHead := by
+  induction n generalizing m with
+  | zero =>
+    have h1 : m.rep.length ≤ m.repHead := by omega
+    have h2 : m.add.length ≤ m.addHead := by omega
+    simp [MBox.drain, List.drop_eq_nil_of_le h1, List.drop_eq_nil_of_le h2]
+  | succ n ih =>
+    simp only [MBox.drain, MBox.deliver]
+    split
+    · next a m' hd =>
+      split at hd
+      · next h =>
+        cases hd
+        rw [ih _ (by simp only; omega)]
+        simp only
+        rw [List.drop_eq_getElem_cons h]
+        rfl
+      · next h =>
+        split at hd
+        · next h2 =>
+          cases hd
+          rw [ih _ (by simp only; omega)]
+          simp only
+          rw [List.drop_eq_nil_of_le (Nat.le_of_not_lt h), List.drop_eq_getElem_cons h2]
+          rfl
+        · cases hd
+    · next hd =>
+      split at hd
+      · cases hd
+      · next h =>
+        split at hd
+        · cases hd
+        · next h2 =>
+          simp [List.drop_eq_nil_of_le (Nat.le_of_not_lt h), List.drop_eq_nil_of_le (Nat.le_of_not_lt h2)]
+
+/-- **after `ResetPackets` every un-acked packet is re-delivered**: whatever had been delivered
+before (wherever the head pointers stood), after the reset the courier hands out the complete
+content of both queues, i.e. every packet that was not acked — settle/fails first. -/
+theorem MBox.reset_redelivers_all (m : MBox α) :
+    m.reset.drain (m.rep.length + m.add.length) = m.rep ++ m.add := by
+  rw [MBox.drain_eq _ _ (by simp [MBox.reset])]
+  simp [MBox.reset]
+
+/-- acks only remove the acked packet: a packet that is delivered but not acked is still in the
+queue, hence re-delivered after a reset. -/
+theorem MBox.unacked_survives (m : MBox α) (i j : Nat) (hj : j < m.rep.length) (hij : i ≠ j) :
+    m.rep[j] ∈ (m.ackRep i).reset.drain ((m.ackRep i).rep.length + (m.ackRep i).add.length) := by
+  rw [MBox.reset_redelivers_all]
+  apply List.mem_append_left
+  simp only [MBox.ackRep]
+  by_cases h : j < i
+  · have : (m.rep.eraseIdx i)[j]? = m.rep[j]? := by rw [List.getElem?_eraseIdx]; simp [h]
+    exact List.mem_of_getElem? (by rw [this]; simp [hj])
+  · have hlt : i < j := by omega
+    have : (m.rep.eraseIdx i)[j - 1]? = m.rep[j]? := by
+      rw [List.getElem?_eraseIdx]
+      have : ¬ (j - 1 < i) := by omega
+      simp only [this, if_false]
+      congr 1
+      omega
+    exact List.mem_of_getElem? (by rw [this]; simp [hj])
+
+/-- the seeded variant (idle reset site forgets the settle/fail queue) loses a delivered,
+un-acked response when no add is pending … -/
+theorem MBox.resetIdleForgetsRep_loses :
+    ({ rep := [7], repHead := 1 } : MBox Nat).resetIdleForgetsRep.drain 1 = [] := by decide
+
+/-- … while an un-acked add that is still to be delivered makes the courier busy, so the other
+reset site (which rewinds both queues) runs and hides the defect. -/
+theorem MBox.resetIdleForgetsRep_hidden_by_add :
+    ({ rep := [7], repHead := 1, add := [9], addHead := 0 } : MBox Nat).resetIdleForgetsRep.drain 2 = [7, 9] := by
+  decide
+
+end Mailbox
 
 /-! ### non-vacuity: the interesting states are reachable, the hypotheses satisfiable -/
 
